@@ -1555,7 +1555,7 @@ func mwParseLine(l string) (*mwCase, error) {
 func init() {
 	register(&Engine{
 		Name: "mw",
-		Rule: "(see also: batches of 2..5 items through every item chain; both server chains installed together; every chain of length <= 2 and a fifth of the longer ones registered in another way — one variadic call, one call per stage, split in two or three calls, CloneCtx, DialClusterContext — and with one of the library's own middlewares inserted; Client.Request / Batch / version negotiation through an installed chain) middleware chains as data: ALL chains of length 0..3 (quick) / 0..4 (thorough) over an alphabet of stage programs (pass-through, tag message and context, call twice / three times, retry while failed, short-circuit with a response / an error / (nil,nil), ignore or rewrite the inner result, return (nil,err), swallow the error, turn success into error, constant message / context, REWRITE THE OPERATION of the message to another routed operation / to an unrouted one, call with the original then with the rewritten operation) x handler scripts (always ok, fail n times then ok, always fail, refuse the unmodified message, alternate) x initial operation (two routed to distinct handlers, one unrouted) x {client chain, server message chain, server batch item chain}, plus random chains of length 4..8 of random programs; every group of requests is run sequentially and then concurrently from 8 goroutines sharing the chain; distinct = distinct line; nontrivial = chain with at least two stages or a stage calling next other than once",
+		Rule: "(see also: batches of 2..5 items through every item chain; both server chains installed together; every chain of length <= 2 and a fifth of the longer ones registered in another way — one variadic call, one call per stage, split in two or three calls, CloneCtx, DialClusterContext — and with one of the library's own middlewares inserted; Client.Request / Batch / version negotiation through an installed chain) middleware chains as data: ALL chains of length 0..3 (quick) / 0..4 (thorough) over an alphabet of stage programs (pass-through, tag message and context, call twice / three times, retry while failed, short-circuit with a response / an error / (nil,nil), ignore or rewrite the inner result, return (nil,err), swallow the error, turn success into error, constant message / context, REWRITE THE OPERATION of the message to another routed operation / to an unrouted one, call with the original then with the rewritten operation) x handler scripts (always ok, fail n times then ok, always fail, refuse the unmodified message, alternate) x initial operation (two routed to distinct handlers, one unrouted) x {client chain, server message chain, server batch item chain}, plus random chains of length 4..8 of random programs and pass-through chains of 9..65 stages (one stage calling next twice, one tagging); every group of requests is run sequentially and then concurrently from 8 goroutines sharing the chain; distinct = distinct line; nontrivial = chain with at least two stages or a stage calling next other than once",
 		Run:  runMw,
 	})
 }
